@@ -200,3 +200,55 @@ def rules(t):
     out = _rules_c09(t)
     out.append(pair_paths(t))
     return out
+
+
+def slices_shape(t):
+    """C09.g: reassembly reservations. (1) the amount released for a `slices` element has the shape of the reservation, `<element>.num_slices * SLICE_SIZE`
+    (directly or through a workspace accessor returning exactly that); (2) in the reliable channel the reservation is released before the exact
+    size is re-added by process_message (otherwise the message is counted twice at the budget test); (3) CO-UPDATE of the unreliable timestamp map:
+    a key enters `slices_last_received` only after the same key has a constructor in `slices`, and both maps are shrunk together."""
+    S = t.F.consts["renet::packet::SLICE_SIZE"]["val"]
+    r = RuleResult("C09.g", "reassembly reservation: released amount = stored element's num_slices * SLICE_SIZE; released before the exact size is re-added; slices_last_received only holds keys of slices", floor=7)
+    def is_reservation_shape(a, depth=0):
+        txt = fmt(a)
+        if re.search(r"\.num_slices MulWithOverflow " + str(S) + r"\)\.0$", txt): return True
+        a_ = strip(a)
+        if isinstance(a_, tuple) and a_[0] == "call" and depth < 2:
+            try: g = t.fn(a_[1].split("::<")[0])
+            except Exception: return False
+            return is_reservation_shape(g.origin_of_local(0), depth + 1)
+        return False
+    for adt in (RR, RU):
+        for s, k, a in counter_stores(t, adt):
+            f = s.fn
+            if k != "sub" or a is None: continue
+            near_slices = [g for g in t.effects("slices", SHRINKM, f)] + [g for g in t.calls(r"SliceConstructor::process_slice$", f)]
+            if not near_slices or "Bytes::len" in fmt(a) or "<T, A>::len" in fmt(a) and "num_slices" not in fmt(a): continue
+            if "message" in fmt(a) and "num_slices" not in fmt(a) and "slices" not in fmt(a): continue
+            r.site(s, f"release {fmt(a)[-50:]}")
+            if not is_reservation_shape(a): r.bad(f"{f.path}|release-shape", s, f"the amount released for a reassembly entry is {fmt(a)[-70:]}, not the reserved `num_slices * SLICE_SIZE` of the stored element: the difference stays accounted forever (or wraps)")
+    # (2) reliable: release dominates the re-adding call
+    ps = t.fn("ReceiveChannelReliable::process_slice")
+    subs = [s for s, k, a in counter_stores(t, RR) if s.fn is ps and k == "sub"]
+    for c in t.calls(r"ReceiveChannelReliable::process_message$", ps):
+        r.site(c, "re-add by process_message")
+        if not any(ps.dominates(s.bb, c.bb) and (s.bb != c.bb or s.idx < c.idx) for s in subs): r.bad(f"{ps.path}|readd-before-release", c, "the completed message is handed to process_message (budget test + exact size added) before the reservation is released: it is counted twice and a message that fits the budget disconnects the connection")
+    # (3) CO-UPDATE of slices_last_received
+    for f in t.fns(r"^renet::channel::unreliable::ReceiveChannelUnreliable::"):
+        for c in t.effects("slices_last_received", {"insert"}, f):
+            r.site(c, "timestamp insert")
+            key = t.arg(c, 1)
+            have = [g for g in t.effects("slices", {"entry", "or_insert_with", "insert"}, f) if same(t.arg(g, 1), key) or fmt(t.arg(g, 1)) == fmt(key)]
+            if not any(f.dominates(g.bb, c.bb) for g in have): r.bad(f"{f.path}|timestamp-without-constructor", c, "a key is recorded in slices_last_received on a path where no reassembly entry exists in `slices` for it: discard_incomplete_old_slices would find no constructor (expect panic in update)")
+        for c in t.effects("slices", {"remove"}, f):
+            r.site(c, "constructor removed")
+            key = fmt(t.arg(c, 1))
+            oth = [g for g in t.effects("slices_last_received", {"remove"}, f) if fmt(t.arg(g, 1)) == key]
+            if not any(f.dominates(g.bb, c.bb) or f.dominates(c.bb, g.bb) for g in oth): r.bad(f"{f.path}|timestamp-left", c, "a reassembly entry is removed from `slices` but its timestamp stays in slices_last_received")
+    return r
+
+_rules_c09b = rules
+def rules(t):
+    out = _rules_c09b(t)
+    out.append(slices_shape(t))
+    return out
